@@ -15,6 +15,9 @@ func genC02() *rapid.Generator[SeqCase] {
 	return rapid.Custom(func(t *rapid.T) SeqCase {
 		c := SeqCase{Store: rapid.SampledFrom(gcs.Stores).Draw(t, "store")}
 		pool := append(append([]string{}, gcs.AllNames...), gcs.HostileNames...) // URL-parser-hostile names (G6)
+		if c.Store == "mem" {
+			pool = append(pool, gcs.MemOnlyNames...) // names no file can have
+		}
 		names := rapid.SliceOfNDistinct(rapid.SampledFrom(pool), 1, 4, func(s string) string { return s }).Draw(t, "names")
 		if rapid.IntRange(0, 7).Draw(t, "nest") == 0 {
 			names = rapid.SliceOfNDistinct(rapid.SampledFrom(gcs.NestNames), 2, 4, func(s string) string { return s }).Draw(t, "nestnames")
